@@ -5,7 +5,21 @@ from . import gens
 
 
 def _to_bytes(d):
+    if isinstance(d, tuple):            # ("qrdata", object key, raw, mode or None)
+        return _to_bytes(d[2])
     return d if isinstance(d, bytes) else str(d).encode("utf-8")
+
+
+def _arg(d, objs):
+    """the argument handed to add_data: bytes / str as they are; ("qrdata", key, raw, mode) -> a util.QRData object, the SAME
+    object for the same key (adding one QRData object twice is legal)"""
+    if isinstance(d, tuple):
+        from qrcode import util
+        _, key, raw, mode = d
+        if key not in objs:
+            objs[key] = util.QRData(raw, mode=mode)
+        return objs[key]
+    return d
 
 
 def run_case(case):
@@ -14,13 +28,41 @@ def run_case(case):
     rec = dict(case=case)
     payload = b"".join(_to_bytes(d) for d, _ in case["calls"])
     rec["payload"] = payload
+    objs = {}
+    if case.get("entry") == "make-shortcut":
+        # qrcode.make(data, **settings): the module-level shortcut (default optimisation threshold, fitting on)
+        try:
+            d = case["calls"][0][0]
+            ref = qrcode.QRCode(); ref.add_data(_arg(d, {}))
+            rec["segs"] = [(s.mode, bytes(s.data)) for s in ref.data_list]
+        except Exception as e:  # noqa
+            rec["setup_error"] = err_name(e)
+            return rec
+        try:
+            kw = {}
+            if case["level"] != 0:                  # ERROR_CORRECT_M = 0 is the default: not passed, so that the plain
+                kw["error_correction"] = case["level"]      # qrcode.make(data) form (no keyword arguments at all) occurs too
+            if case["version"] is not None:
+                kw["version"] = case["version"]
+            if case["mask"] is not None:
+                kw["mask_pattern"] = case["mask"]
+            im = qrcode.make(_arg(d, objs), **kw)
+            mods = [list(row) for row in im.modules]
+            rec["outcome"] = ("ok", (len(mods) - 17) // 4, mods)
+            rec["data_cache"] = None
+        except RecursionError:
+            rec["outcome"] = ("err", "Exception")
+        except Exception as e:  # noqa
+            rec["outcome"] = ("err", err_name(e))
+            rec["exc_repr"] = repr(e)[:200]
+        return rec
     try:
         pre = case.get("prehistory")
         if pre and pre.get("style") == "resettings":
             # same data, other settings first: compile, then only re-assign version / level / mask (no add_data, no clear)
             q = qrcode.QRCode(version=pre["version"], error_correction=pre["level"], mask_pattern=pre["mask"])
             for d, opt in case["calls"]:
-                q.add_data(d, optimize=opt)
+                q.add_data(_arg(d, objs), optimize=opt)
             try:
                 q.make()
             except Exception:  # noqa
@@ -33,7 +75,7 @@ def run_case(case):
             q = qrcode.QRCode(version=pre["version"], error_correction=pre["level"], mask_pattern=pre["mask"])
             q.add_data(pre["data"], optimize=0)
             try:
-                q.make()
+                q.make(fit=pre.get("fit", True))
             except Exception:  # noqa
                 pass
             if pre.get("clear", True):
@@ -45,7 +87,7 @@ def run_case(case):
             q = qrcode.QRCode(version=case["version"], error_correction=case["level"], mask_pattern=case["mask"])
         if not (pre and pre.get("style") == "resettings"):
             for d, opt in case["calls"]:
-                q.add_data(d, optimize=opt)
+                q.add_data(_arg(d, objs), optimize=opt)
             rec["segs"] = [(s.mode, bytes(s.data)) for s in q.data_list]
     except Exception as e:  # noqa
         rec["setup_error"] = err_name(e)
@@ -130,9 +172,22 @@ def parse_spec_read(rep):
                 data=[int(x) for x in t[6].split(",")] if t[6] != "-" else [])
 
 
+def _d_repr(d):
+    if isinstance(d, tuple):
+        return {"qrdata": [d[1], _d_repr(d[2]), d[3]]}
+    return d.hex() if isinstance(d, bytes) else {"str": d}
+
+
+def _d_from(d):
+    if isinstance(d, dict) and "qrdata" in d:
+        k, raw, mode = d["qrdata"]
+        return ("qrdata", k, _d_from(raw), mode)
+    return bytes.fromhex(d) if isinstance(d, str) else d["str"]
+
+
 def case_repr(case):
     c = dict(case)
-    c["calls"] = [[d.hex() if isinstance(d, bytes) else {"str": d}, o] for d, o in case["calls"]]
+    c["calls"] = [[_d_repr(d), o] for d, o in case["calls"]]
     if c.get("prehistory"):
         c["prehistory"] = dict(c["prehistory"], data=c["prehistory"]["data"].hex())
     return c
@@ -140,7 +195,7 @@ def case_repr(case):
 
 def case_from_repr(c):
     c = dict(c)
-    c["calls"] = [(bytes.fromhex(d) if isinstance(d, str) else d["str"], o) for d, o in c["calls"]]
+    c["calls"] = [(_d_from(d), o) for d, o in c["calls"]]
     if c.get("prehistory"):
         c["prehistory"] = dict(c["prehistory"], data=bytes.fromhex(c["prehistory"]["data"]))
     return c
@@ -168,6 +223,12 @@ def std_cases(tier, seed, caps=None, cross_all=False):
         c["prehistory"] = dict(version=rnd.choice([None, 1, 2, 5, 7, 10]), level=rnd.randrange(4), mask=rnd.choice([None, 0, 5]),
                                data=gens.payload(rnd, rnd.choice(["lower", "digits", "bytes"]), rnd.randrange(1, 30)), clear=rnd.random() < 0.7)
         c["tag"] = "random-reused-object"
+    for c in rc[2::9]:
+        if not c.get("prehistory"):
+            # an earlier compile of the same object that FAILED (fixed version too small, fitting off, automatic or fixed mask)
+            c["prehistory"] = dict(version=rnd.choice([1, 2]), level=rnd.choice([2, 3]), mask=rnd.choice([None, None, 2]), fit=False,
+                                   data=gens.payload(rnd, "lower", rnd.randrange(60, 90)), clear=rnd.random() < 0.6)
+            c["tag"] = "random-after-failed-compile"
     for c in rc[1::5]:
         if c["version"] is None:
             continue        # (with version None the fitted version of the first compile is a legitimate starting point)
@@ -184,6 +245,10 @@ def std_cases(tier, seed, caps=None, cross_all=False):
     for (v, l, segs, d) in ms:
         for (ver, fit) in ((None, True), (v, False)) if d <= 0 or rnd.random() < 0.5 else ((None, True),):
             cases.append(dict(version=ver, level=l, mask=rnd.randrange(8), fit=fit, calls=[(dd, 0) for _, dd in segs], tag=f"multi-boundary{d:+d}"))
+    # less used entry points of the same API: explicit QRData objects (the same object added more than once, equal but distinct
+    # objects, explicit modes), text (str) payloads incl. non-ASCII digits and letters, the qrcode.make() shortcut
+    api = gens.api_entry_cases(rnd)
+    cases += api if tier == "thorough" else rnd.sample(api, 90)
     # fixed corner cases (corpus of past findings)
     cases += [
         dict(version=None, level=2, mask=None, fit=True, calls=[(b"\0" * 24, 0)], tag="corpus-D1"),
